@@ -147,6 +147,23 @@ def oracle(line, impl, model, ref=None):
     return None
 
 
+
+def pieces_oracle():
+    """judged without the model: every way of cutting one text into pieces gives the same outcome and the same events"""
+    first = {}
+
+    def oracle(line, impl, model, ref=None):
+        t = line.split()
+        key = (t[2], t[3])
+        head = impl.split(" ##")[0]
+        if key not in first:
+            first[key] = (head, t[4])
+            return None
+        if first[key][0] != head:
+            return "the push parser's outcome depends on the pieces: cuts %s give '%s', cuts %s give '%s'" % (first[key][1], first[key][0][:120], t[4], head[:120])
+        return None
+    return oracle
+
 def nontrivial(line, impl):
     t = line.split()
     if t[0] == "bin":
@@ -168,6 +185,9 @@ def streams(ctx, rng, scale):
     ctx.correspond("binary-deliveries", "bin", lb, oracle, nontrivial, want_model=False)
     ls = gen_lines(rng, 700 * scale)
     ctx.correspond("json-deliveries", HARNESS, ls, oracle, nontrivial, ref_lines=c02.with_ref(ls), want_model=False)
+    # the parser model: whatever the pieces, the real parser must be in the model's state after each piece and end with the model's outcome
+    lm = c02.pevents_from(ls[:len(SPECIAL) * 3 + 200], rng, all_splits_upto=40) + c02.pevents_from(ls, rng)
+    ctx.correspond("parser-model-pieces", HARNESS, lm, pieces_oracle(), c02.pevents_nontrivial, compare=c02.compare_pevents)
 
 
 def run(ctx):
